@@ -38,14 +38,33 @@ def name_uses(chk, repo):
     """The finite-names argument of R1: team names reach only ==/!=/is-None tests, f-string holes, the seat table and locals."""
     from ..index import parent
     ci, fn = repo.method('PlayerThread', '_connect', 'C20.R1')
+    # the methods of the class reachable from _connect through self-calls: the name is taken from parse_connection_info in one of them
+    reach, todo = [], [fn]
+    while todo:
+        g_ = todo.pop()
+        if any(g_ is x for x in reach):
+            continue
+        reach.append(g_)
+        for n in ast.walk(g_):
+            if isinstance(n, ast.Call) and isinstance(n.func, ast.Attribute) and isinstance(n.func.value, ast.Name) and n.func.value.id in ('self', 'cls'):
+                for c in repo.mro(ci):
+                    if n.func.attr in c.methods:
+                        todo.append(c.methods[n.func.attr])
+                        break
+    work = []
     tainted = set()
-    for n in ast.walk(fn):
-        if isinstance(n, ast.Assign) and isinstance(n.targets[0], ast.Tuple) and 'parse_connection_info' in ast.unparse(n.value):
-            if n.targets[0].elts and isinstance(n.targets[0].elts[0], ast.Name):
-                tainted.add(n.targets[0].elts[0].id)
+    for g_ in reach:
+        t_ = set()
+        for n in ast.walk(g_):
+            if isinstance(n, ast.Assign) and isinstance(n.targets[0], ast.Tuple) and 'parse_connection_info' in ast.unparse(n.value):
+                if n.targets[0].elts and isinstance(n.targets[0].elts[0], ast.Name):
+                    t_.add(n.targets[0].elts[0].id)
+        if t_:
+            work.append((g_, t_))
+            tainted |= t_
     if not tainted:
         raise AnalysisError('C20.R1', 'PlayerThread._connect', 'cannot find the team name taken from parse_connection_info')
-    work = [(fn, set(tainted))]
+    fn = work[0][0]
     seen_fns = set()
     all_tainted = set(tainted)
     n_fns = 0
@@ -75,7 +94,16 @@ def name_uses(chk, repo):
             par = parent(n)
             if isinstance(par, ast.Compare) and all(isinstance(o, (ast.Eq, ast.NotEq, ast.Is, ast.IsNot)) for o in par.ops):
                 continue
-            if isinstance(par, ast.FormattedValue) or (isinstance(par, ast.Assign) and par.value is n) or isinstance(par, ast.Return):
+            if isinstance(par, ast.Return):
+                # the helper hands the name back: the variables its callers bind the result to carry it
+                for h_ in reach:
+                    for x_ in ast.walk(h_):
+                        if isinstance(x_, ast.Assign) and len(x_.targets) == 1 and isinstance(x_.targets[0], ast.Name) and isinstance(x_.value, ast.Call) \
+                                and isinstance(x_.value.func, ast.Attribute) and isinstance(x_.value.func.value, ast.Name) and x_.value.func.value.id in ('self', 'cls') \
+                                and x_.value.func.attr == g.name:
+                            work.append((h_, {x_.targets[0].id}))
+                continue
+            if isinstance(par, ast.FormattedValue) or (isinstance(par, ast.Assign) and par.value is n):
                 continue
             if isinstance(par, ast.keyword):
                 par2 = parent(par)
@@ -218,8 +246,22 @@ def run(chk):
             if isinstance(node, ast.Assign) and isinstance(node.targets[0], ast.Attribute):
                 continue        # self.team_names = team_names in the constructor
             writes.append((f'{c.name}.{fn.name}', node, m))
-    chk.require(len(writes) == 1 and writes[0][0] == 'PlayerThread._connect', 'C20.R2', repo.where(writes[0][2], writes[0][1]) if writes else w_c, q_c,
-                'writers of the seat table', 'the seat table has exactly one write site (in _connect)', f'seat table written at {[w[0] for w in writes]}')
+    # ... in _connect or in a helper method that only the admission dialogue (_connect and what it calls) reaches
+    pt_ci = repo.cls('PlayerThread', 'C20.R2')
+    reach_, todo_ = set(), ['_connect']
+    while todo_:
+        mn_ = todo_.pop()
+        if mn_ in reach_ or mn_ not in pt_ci.methods:
+            continue
+        reach_.add(mn_)
+        for n_ in ast.walk(pt_ci.methods[mn_]):
+            if isinstance(n_, ast.Call) and isinstance(n_.func, ast.Attribute) and isinstance(n_.func.value, ast.Name) and n_.func.value.id == 'self':
+                todo_.append(n_.func.attr)
+    called_elsewhere = {n_.func.attr for mn_, fn_ in pt_ci.methods.items() if mn_ not in reach_ for n_ in ast.walk(fn_)
+                        if isinstance(n_, ast.Call) and isinstance(n_.func, ast.Attribute) and isinstance(n_.func.value, ast.Name) and n_.func.value.id == 'self'}
+    ok_w = len(writes) == 1 and writes[0][0].split('.')[-1] in reach_ and (writes[0][0] == 'PlayerThread._connect' or writes[0][0].split('.')[-1] not in called_elsewhere)
+    chk.require(ok_w, 'C20.R2', repo.where(writes[0][2], writes[0][1]) if writes else w_c, q_c,
+                'writers of the seat table', 'the seat table has exactly one write site (in the admission dialogue)', f'seat table written at {[w[0] for w in writes]}')
     _, srun = repo.method('Server', 'run', 'C20.R2')
     ext = [n for n in ast.walk(srun) if isinstance(n, (ast.Assign, ast.AugAssign)) and any(isinstance(t, ast.Subscript) and ast.unparse(t.value) == 'team_names'
                                                                                        for t in (n.targets if isinstance(n, ast.Assign) else [n.target]))]
@@ -233,6 +275,15 @@ def run(chk):
                     any(isinstance(t, ast.Name) and t.id == kwv.id for t in (n.targets if isinstance(n, ast.Assign) else [n.target]))]
             src = defs[0].value if len(defs) == 1 else None
         fresh = isinstance(src, (ast.Dict, ast.DictComp)) and all(isinstance(v, ast.Constant) and v.value is None for v in (src.values if isinstance(src, ast.Dict) else [src.value]))
+        if not fresh and src is not None and not isinstance(src, ast.Attribute):
+            # any other expression: folded - it must give a new table with the four seats, all free
+            from ..fold import Folder as _F, EV as _EV, FoldRaise as _FR, Unsupported as _UN
+            try:
+                sci_, _ = repo.method('Server', 'run', 'C20.R2')
+                tv_ = _F(repo, allow_loops=True)._eval(src, {}, sci_.module, sci_)
+                fresh = isinstance(tv_, dict) and len(tv_) == 4 and all(isinstance(k_, _EV) and k_.cls.name == 'Player' for k_ in tv_) and all(v_ is None for v_ in tv_.values())
+            except (_FR, _UN, KeyError):
+                fresh = False
         if src is None or not (fresh or isinstance(src, ast.Attribute)):
             raise AnalysisError('C20.R2', 'Server.run', 'cannot trace the seat table handed to PlayerThread to its creation')
         chk.require(fresh, 'C20.R2', repo.where(repo.cls('Server').module, tcalls[0]), 'Server.run', f'seat table handed to the connection threads is `{ast.unparse(src)[:40]}`',
